@@ -19,9 +19,11 @@ import (
 )
 
 type c10Emit struct {
-	Kind string `json:"kind"`
-	Meta bool   `json:"meta"`
-	I    int    `json:"i"`
+	Kind  string `json:"kind"`
+	Meta  bool   `json:"meta"`
+	I     int    `json:"i"`
+	Size  int    `json:"size,omitempty"`  // extra payload bytes (concretisation of the size class)
+	Typed bool   `json:"typed,omitempty"` // _meta passed as mcp.Meta instead of a plain map
 }
 
 type c10Scenario struct {
@@ -76,7 +78,13 @@ func c10Send(ctx context.Context, nonce string, e c10Emit) error {
 		return fmt.Errorf("no notification sender in context")
 	}
 	msg := fmt.Sprintf("m-%s-%d", nonce, e.I)
-	meta := map[string]interface{}{"tok": msg, "n": float64(e.I)}
+	var meta interface{} = map[string]interface{}{"tok": msg, "n": float64(e.I)}
+	if e.Typed {
+		meta = mcp.Meta{"tok": msg, "n": float64(e.I)}
+	}
+	if e.Size > 0 {
+		msg = msg + "|" + strings.Repeat("x", e.Size)
+	}
 	switch {
 	case e.Kind == "progress" && !e.Meta:
 		return sender.SendProgress(float64(e.I), msg)
@@ -110,6 +118,13 @@ func c10Check(n *mcp.JSONRPCNotification) (nonce string, i int, meta bool, intac
 	case "custom":
 		msg, _ = af["text"].(string)
 	}
+	full := msg
+	if k := strings.IndexByte(msg, '|'); k >= 0 {
+		msg = msg[:k]
+		if strings.Trim(full[k+1:], "x") != "" {
+			return "", 0, false, false, "payload padding corrupted"
+		}
+	}
 	parts := strings.Split(msg, "-")
 	if len(parts) < 3 || parts[0] != "m" {
 		return "", 0, false, false, fmt.Sprintf("payload lost: %v", af)
@@ -132,7 +147,7 @@ func c10Check(n *mcp.JSONRPCNotification) (nonce string, i int, meta bool, intac
 			intact, detail = false, fmt.Sprintf("level %v", af["level"])
 		}
 	case "custom":
-		want := map[string]interface{}{"seq": float64(i), "text": msg}
+		want := map[string]interface{}{"seq": float64(i), "text": full}
 		if !meta {
 			want["nested"] = map[string]interface{}{"a": []interface{}{1.0, "x", nil}}
 		}
